@@ -20,6 +20,9 @@ type C17Op struct {
 	PUSI  bool   `json:"pusi,omitempty"`
 	AFLen int    `json:"af_len,omitempty"`
 	Ser   int    `json:"ser,omitempty"`
+	// PID != 0: the packet's PID (default: 0x30 + Ser%7). An accumulator takes what it is given;
+	// which PID that is - the null PID 0x1FFF and PID 0 (written as 0x2000) included - is the caller's business
+	PID int `json:"pid,omitempty"`
 }
 
 // PredSpec is a completion predicate that is a pure function of the bytes it
@@ -60,7 +63,7 @@ func (c17) Info() core.Info {
 			"only slice-level independence of Packets() is demanded",
 			"a predicate result (true, err) with err != nil is an error and not a completion (Go convention: other results mean nothing next to a non-nil error)",
 		},
-		RequiredProbes: []string{"payload_all_ff", "pred_err_is_done_sentinel", "very_long_unit", "reserved_afc_packet", "pusi_without_payload", "held_results_checked", "second_pusi_restart", "refused_before_start", "write_after_done", "pred_err", "nopayload_packet", "reset_mid", "buffer_reused", "scribbled", "done_at_first_packet", "empty_payload_packet", "af_overrun_packet", "pred_err_with_done_true", "reset_after_unit_of_268_packets_or_more", "same_packet_written_twice"},
+		RequiredProbes: []string{"payload_all_ff", "pred_err_is_done_sentinel", "very_long_unit", "reserved_afc_packet", "pusi_without_payload", "held_results_checked", "second_pusi_restart", "refused_before_start", "write_after_done", "pred_err", "nopayload_packet", "reset_mid", "buffer_reused", "scribbled", "done_at_first_packet", "empty_payload_packet", "af_overrun_packet", "pred_err_with_done_true", "reset_after_unit_of_268_packets_or_more", "same_packet_written_twice", "packet_on_the_null_pid"},
 	}
 }
 
@@ -68,6 +71,9 @@ func c17Packet(op C17Op) (packet.Packet, []byte, bool) {
 	var p packet.Packet
 	p[0] = 0x47
 	pid := 0x30 + op.Ser%7
+	if op.PID != 0 {
+		pid = op.PID & 0x1FFF
+	}
 	p[1] = byte(pid >> 8)
 	if op.PUSI {
 		p[1] |= 0x40
@@ -227,6 +233,24 @@ func (c17) Gen(r *core.Rand, tier string) interface{} {
 			op = s.Ops[i-1]
 		}
 		s.Ops = append(s.Ops, op)
+	}
+	// swarm: which PIDs the packets are on
+	switch r.Intn(8) {
+	case 0:
+		for i := range s.Ops {
+			s.Ops[i].PID = 0x1FFF
+		}
+	case 1:
+		for i := range s.Ops {
+			if i%3 == 1 {
+				s.Ops[i].PID = 0x1FFF
+			}
+		}
+	case 2:
+		pid := r.Pick(0x2000, 1, 0x10, 0x1FFE, r.Range(1, 0x1FFE))
+		for i := range s.Ops {
+			s.Ops[i].PID = pid
+		}
 	}
 	return s
 }
@@ -668,6 +692,9 @@ func (c17) Exec(script interface{}, c *core.Ctx) {
 			}
 			if shadow != nil && !run(shadow, spred, "after_reset:") {
 				return
+			}
+			if op.PID&0x1FFF == 0x1FFF {
+				c.Probe("packet_on_the_null_pid")
 			}
 			if i > 0 && s.Ops[i-1] == op && e.kind == "accepted" {
 				c.Probe("same_packet_written_twice")
